@@ -381,9 +381,59 @@ def range_loop_info(b, head, tail):
     return False, '', None
 
 
+def array_loop_info(b, head, tail):
+    """fourth accepted loop shape: `for x in <array>` / `for x in <array>.iter()`: every iteration calls next() on an iterator
+    defined once, before the loop, from a value whose type is a fixed-length array `[T; N]`, and leaves when it is exhausted"""
+    import re
+    loop = b.natural_loop(tail, head)
+    for i in sorted(loop):
+        t = b.blocks[i]['term']
+        if t['k'] != 'call' or not t['func'].get('fn'):
+            continue
+        nm = mir.callee_name(t['func']['fn'])
+        if not (nm.endswith('::next') and ('std::array::' in nm or 'std::slice::Iter' in nm)) or not (b.dominates(i, tail) or i == tail):
+            continue
+        a0 = t['args'][0]
+        if a0.get('k') not in ('copy', 'move') or a0['p']['proj']:
+            continue
+        it = _origin(b, a0['p']['l'])
+        d = _defs_of(b, it)
+        if len(d) != 1 or d[0][0] in loop or not b.dominates(d[0][0], head):
+            continue
+        if d[0][1] != 'call' or not d[0][2]['func'].get('fn') or \
+                mir.callee_name(d[0][2]['func']['fn']).split('::')[-1] not in ('into_iter', 'iter'):
+            continue
+        a = d[0][2]['args'][0]
+        # an array iterator carries the length in its type: IntoIter<T, N>
+        mt = re.search(r'^std::array::(?:iter::)?IntoIter<.*, (\d+)>$', b.tystr(b.locals[it]['ty']))
+        if not mt and a.get('k') not in ('copy', 'move'):
+            continue
+        if not mt:
+            ty = b.tystr(a['p']['ty']) if 'ty' in a['p'] else b.tystr(b.locals[a['p']['l']]['ty'])
+            mt = re.search(r'\[.*; (\d+)\]$', ty.lstrip('&').replace('mut ', '').strip())
+        if not mt:
+            # `.iter()` on `&[T]` obtained from an array local by unsizing: look one definition back
+            src = _origin(b, a['p']['l'])
+            ty2 = b.tystr(b.locals[src]['ty'])
+            mt = re.search(r'\[.*; (\d+)\]$', ty2.lstrip('&').replace('mut ', '').strip())
+        if not mt:
+            continue
+        nxt = t['target']
+        st = b.blocks[nxt]['term'] if nxt is not None else None
+        if st is None or st['k'] != 'switch' or not any(tgt not in loop for tgt in b.succs(nxt)):
+            continue
+        n = int(mt.group(1))
+        return True, 'bounded `for` loop over an array of %d elements (next() at %s drives every iteration)' % (n, b.where(i)), \
+            {'ctr': None, 'init': n, 'decs': set(), 'dec_by': {1}, 'kind': ('array', 0)}
+    return False, '', None
+
+
 def ranking(b, head, tail):
     ok, why, _ = ranking_info(b, head, tail)
     if not ok:
+        ok4, why4, _ = array_loop_info(b, head, tail)
+        if ok4:
+            return True, why4
         ok2, why2, _ = range_loop_info(b, head, tail)
         if ok2:
             return True, why2
